@@ -57,6 +57,13 @@ func (cs ClientState) Initialize(
 	store sdk.KVStore,
 	state exported.ConsensusState,
 ) error {
+	if _, ok := state.(*ConsensusState); !ok {
+		return sdkerrors.Wrapf(
+			clienttypes.ErrInvalidConsensus,
+			"invalid consensus state. expected type: %T, got: %T",
+			&ConsensusState{}, state,
+		)
+	}
 	header := cs.Header
 	headerBytes, err := cdc.MarshalInterface(&header)
 	if err != nil {
@@ -73,6 +80,13 @@ func (cs ClientState) UpgradeState(
 	store sdk.KVStore,
 	state exported.ConsensusState,
 ) error {
+	if _, ok := state.(*ConsensusState); !ok {
+		return sdkerrors.Wrapf(
+			clienttypes.ErrInvalidConsensus,
+			"invalid consensus state. expected type: %T, got: %T",
+			&ConsensusState{}, state,
+		)
+	}
 	header := cs.Header
 	headerBytes, err := cdc.MarshalInterface(&header)
 	if err != nil {
